@@ -168,7 +168,9 @@ def implicit_submodule_names(files: dict, ref: dict) -> dict[str, set[str]]:
         is_pkg = rel.endswith("__init__.py")
         wild = []
         explicit = []
-        for node in ast.parse(src).body:
+        tree = ast.parse(src)
+        top_level = set(map(id, tree.body))
+        for node in ast.walk(tree):
             if isinstance(node, ast.ImportFrom):
                 if node.level:
                     base = mod.split(".") if is_pkg else mod.split(".")[:-1]
@@ -178,9 +180,10 @@ def implicit_submodule_names(files: dict, ref: dict) -> dict[str, set[str]]:
                     srcmod = node.module
                 for a in node.names:
                     if a.name == "*":
-                        wild.append(srcmod)
+                        if id(node) in top_level:
+                            wild.append(srcmod)
                     else:
-                        explicit.append((srcmod, a.name, a.asname or a.name))
+                        explicit.append((srcmod, a.name, a.asname or a.name, id(node) not in top_level))
         info[mod] = (packages.statement_bound_names(src), wild, explicit)
     implicit: dict[str, set[str]] = {m: set() for m in info}
     changed = True
@@ -190,8 +193,9 @@ def implicit_submodule_names(files: dict, ref: dict) -> dict[str, set[str]]:
             names = ref["modules"].get(mod, {}).get("names", {})
             # (c) an explicit import of a name that is only implicitly bound in its source module: what it captures
             # depends on the order of import side effects
-            for srcmod, name, asname in explicit:
-                if name in implicit.get(srcmod, ()) and asname not in implicit[mod] and names.get(asname, {}).get("k") == "module":
+            for srcmod, name, asname, nested in explicit:
+                if name in implicit.get(srcmod, ()) and asname not in implicit[mod] and (
+                        nested or names.get(asname, {}).get("k") == "module"):
                     implicit[mod].add(asname)
                     changed = True
             for n, v in names.items():
@@ -324,7 +328,9 @@ def features(files: dict) -> tuple[bool, tuple]:
 
     for rel, src in files.items():
         mod = rel[:-3].replace("/", ".").removesuffix(".__init__")
-        for node in ast.parse(src).body:
+        tree = ast.parse(src)
+        top_level = set(map(id, tree.body))
+        for node in ast.walk(tree):
             if isinstance(node, ast.ImportFrom):
                 for a in node.names:
                     imported_in.setdefault(mod, set()).add(a.asname or a.name)
